@@ -144,7 +144,8 @@ type c04Goal struct {
 	T    string     `json:"t,omitempty"`    // term text for bind / throw / catcher
 	Kind string     `json:"kind,omitempty"` // berr kind
 	Args []*c04Goal `json:"args,omitempty"`
-	U    int        `json:"u,omitempty"` // user predicate index
+	U    int        `json:"u,omitempty"`    // user predicate index
+	Cuts int        `json:"cuts,omitempty"` // seq: bit 0 = a cut before the first goal, bit i+1 = a cut after goal i
 }
 
 type c04Clause struct {
@@ -373,11 +374,15 @@ func (m *c04Model) solve(g *c04Goal, e *menv, local map[string]*mt, k func(*menv
 		switch g.Op {
 		case "call":
 			// call/1 is transparent to solutions (opaque to cut only)
-			return m.solve(g.Args[0], e, local, k)
+			s := m.solveIn(g.Args[0], e, local, id, k)
+			if s == sigStop && m.stopID == id {
+				return sigFail
+			}
+			return s
 		case "once", "ite", "not":
 			var first *menv
 			found := false
-			s := m.solve(g.Args[0], e, local, func(e2 *menv) sig { first, found = e2, true; m.stopID = id; return sigStop })
+			s := m.solveIn(g.Args[0], e, local, id, func(e2 *menv) sig { first, found = e2, true; m.stopID = id; return sigStop })
 			if s == sigStop && m.stopID == id {
 				s = sigFail
 			} else if s != sigFail {
@@ -411,7 +416,10 @@ func (m *c04Model) solve(g *c04Goal, e *menv, local map[string]*mt, k func(*menv
 				}
 			}
 			n := 0
-			s := m.solve(g.Args[0], e, local, func(*menv) sig { n++; return sigFail })
+			s := m.solveIn(g.Args[0], e, local, id, func(*menv) sig { n++; return sigFail })
+			if s == sigStop && m.stopID == id {
+				s = sigFail
+			}
 			if s != sigFail {
 				return s
 			}
@@ -454,7 +462,9 @@ func (m *c04Model) solve(g *c04Goal, e *menv, local map[string]*mt, k func(*menv
 			inner = &c04Goal{Op: "badgoal", Kind: g.Kind, T: c04BadVar(g), I: g.I}
 		}
 		m.underCatch++
-		s := m.solve(inner, e, local, func(e2 *menv) sig {
+		cid := m.nextStop + 1
+		m.nextStop++
+		s := m.solveIn(inner, e, local, cid, func(e2 *menv) sig {
 			m.underCatch--
 			s2 := k(e2)
 			m.underCatch++
@@ -464,6 +474,9 @@ func (m *c04Model) solve(g *c04Goal, e *menv, local map[string]*mt, k func(*menv
 			return s2
 		})
 		m.underCatch--
+		if s == sigStop && m.stopID == cid {
+			return sigFail // a cut in the goal of catch/3 is local to it
+		}
 		if s != sigError || fromCont {
 			return s
 		}
@@ -519,10 +532,43 @@ func (m *c04Model) solve(g *c04Goal, e *menv, local map[string]*mt, k func(*menv
 	panic("c04 model: unknown goal " + g.Op)
 }
 
+// solveIn solves g as the whole argument of a construct that is opaque to cut (clause body, call/1, once/1, \\+, the
+// condition of if-then-else, findall/3, the goal of catch/3): id names that construct's sub-search. Only there does the
+// generator place cuts, as members of a flat conjunction ("seq").
+func (m *c04Model) solveIn(g *c04Goal, e *menv, local map[string]*mt, id int, k func(*menv) sig) sig {
+	if g.Op != "seq" {
+		return m.solve(g, e, local, k)
+	}
+	var from func(i int, e *menv) sig
+	cutThen := func(i int, e *menv) sig {
+		// the cut succeeds; when what follows it is exhausted, nothing to its left in this scope is retried
+		if s := from(i, e); s != sigFail {
+			return s
+		}
+		m.stopID = id
+		return sigStop
+	}
+	from = func(i int, e *menv) sig {
+		if i == len(g.Args) {
+			return k(e)
+		}
+		return m.solve(g.Args[i], e, local, func(e2 *menv) sig {
+			if g.Cuts&(1<<uint(i+1)) != 0 {
+				return cutThen(i+1, e2)
+			}
+			return from(i+1, e2)
+		})
+	}
+	if g.Cuts&1 != 0 {
+		return cutThen(0, e)
+	}
+	return from(0, e)
+}
+
 // solveBody runs a clause body; a clause-level cut after the Cut-th conjunct commits to this clause.
 func (m *c04Model) solveBody(cl c04Clause, e *menv, loc map[string]*mt, k func(*menv) sig, id int) sig {
 	if cl.Cut == 0 {
-		return m.solve(cl.Body, e, loc, k)
+		return m.solveIn(cl.Body, e, loc, id, k)
 	}
 	// Body = and(G1, G2) with the cut between them: G1, !, G2
 	g1, g2 := cl.Body.Args[0], cl.Body.Args[1]
